@@ -32,7 +32,7 @@ ASSUMPTIONS = [
 ]
 DECIDING = ['tcpcl.session:Messenger.recv_raw', 'tcpcl.session:Messenger.recv_message',
             'tcpcl.formats:verify_sized_item', 'tcpcl.messages:MessageHead.post_dissection']
-REQUIRED_OBS = ['feed_steps', 'messages_expected', 'codec_real_to_oracle', 'codec_oracle_to_real']
+REQUIRED_OBS = ['feed_steps', 'messages_expected', 'reactions_compared', 'codec_real_to_oracle', 'codec_oracle_to_real']
 EXHAUSTIVE_SUBSPACES = {
     'quick': ['all 2^13 compositions of two 14-octet streams (passive role)', 'all single cuts of every stream <= 300 octets'],
     'thorough': ['all 2^13 compositions of four 14-octet streams x both roles', 'all single and double cuts of streams <= 300 octets'],
@@ -327,8 +327,17 @@ def run_framing(name, cuts, role, keep_detail=False):
         return orig(pkt)
 
     hdl.recv_message = recorder
+    # the endpoint's reaction: every message it sends while being fed (compared with the reaction to the same stream in one read)
+    reaction = []
+    orig_send = hdl.send_message
+
+    def send_recorder(pkt, *args, **kwargs):
+        reaction.append(bytes(pkt))
+        return orig_send(pkt, *args, **kwargs)
+
+    hdl.send_message = send_recorder
     violations = []
-    counters = dict(feed_steps=0, messages_expected=0, buffer_checks=0)
+    counters = dict(feed_steps=0, messages_expected=0, buffer_checks=0, reactions_compared=0)
     bounds = [0] + list(cuts) + [len(data)]
     next_expected = 0
     cum = 0
@@ -390,7 +399,28 @@ def run_framing(name, cuts, role, keep_detail=False):
                     kind='buffer', stream=name, cuts=list(cuts), step=step))
                 break
     hdl.recv_message = orig
+    hdl.send_message = orig_send
+    if not violations:
+        key = (name, role)
+        if not cuts:
+            _REACTION_BASE[key] = list(reaction)
+        else:
+            if key not in _REACTION_BASE:
+                base_viol, _cnt = run_framing(name, (), role)
+                if base_viol:
+                    _REACTION_BASE[key] = None
+            base = _REACTION_BASE.get(key)
+            if base is not None:
+                counters['reactions_compared'] += 1
+                if reaction != base:
+                    violations.append(_viol(
+                        'fed %s with cuts %s the endpoint sent %d message(s) %s, fed the same octets in one read it sends %d message(s) %s' % (
+                            name, list(cuts)[:6], len(reaction), [item[:8].hex() for item in reaction][:8], len(base), [item[:8].hex() for item in base][:8]),
+                        kind='reaction', stream=name, cuts=list(cuts), step=len(bounds) - 2))
     return violations, counters
+
+
+_REACTION_BASE = {}
 
 
 def _viol(what, **detail):
